@@ -292,6 +292,18 @@ def gen_case(rng, gpg=None, stratum=None):
     return case
 
 
+def soften_for_extras(case, model):
+    """see rootchain.soften_for_extras"""
+    from . import rootchain
+
+    return rootchain.soften_for_extras(case, model)
+
+
+def model_of(case):
+    m, failed = models.delegation_verdict(case["role"], copy.deepcopy(case["untrusted"]), copy.deepcopy(case["trusted"]), case["gpg"])
+    return soften_for_extras(case, m), failed
+
+
 def evaluate(case, lib, fn=None):
     trusted = copy.deepcopy(case["trusted"])
     untrusted = copy.deepcopy(case["untrusted"])
@@ -303,13 +315,7 @@ def evaluate(case, lib, fn=None):
         out = boundary.call(lib, f, role, untrusted, trusted, gpg=gpg)
     case["_stdout_write_attempts"] = hs.attempts
     model = hostile.adjust(model, case.get("stdout"))
-    if case.get("extras") and model.v == models.ACCEPT:
-        # members outside the stated schema: a version of the library may give them a meaning and refuse; the statements only say
-        # when a document must NOT be accepted
-        model = models.Verdict(models.GREY, None, (model.why or "") + " (extra members present: acceptance not demanded)")
-    elif case.get("extras") and model.v == models.REJECT:
-        # ... and a version that gives such a member a format may name its own reason first: which error is not judged
-        model = models.Verdict(models.REJECT, None, model.why, model.counted, model.grey_counted)
+    model = soften_for_extras(case, model)
     mutated = boundary.fingerprint([role, untrusted, trusted]) != before
     return model, failed, out, mutated
 
